@@ -15,6 +15,7 @@ import os
 import random
 import shutil
 import sys
+import time
 import tempfile
 from pathlib import Path
 
@@ -44,6 +45,15 @@ def gen_version(rng, codenames=("stable",), comps=("main", "contrib"), arches=("
             if rng.random() < 0.4:
                 c["compressions"] = rng.choice([["xz", "gz"], ["gz"], ["xz"], ["xz", "gz", ""], ["bz2", ""]])
             for comp, cc in c["components"].items():
+                # Contents files come and go per architecture, and may become byte-identical to a sibling that is
+                # already mirrored (they then share their by-hash names with it)
+                if rng.random() < 0.25:
+                    cc["contents"] = not cc["contents"]
+                if cc["contents"] and rng.random() < 0.5:
+                    real = [a for a in cc["arches"] if a != "all"]
+                    cc["contents_arches"] = rng.choice([real, real[:1], real[1:] or real])
+                    if rng.random() < 0.5:
+                        cc["contents_identical"] = not cc.get("contents_identical", False)
                 for arch, pk in cc["arches"].items():
                     for p in list(pk):
                         w = rng.random()
@@ -69,6 +79,7 @@ def gen_version(rng, codenames=("stable",), comps=("main", "contrib"), arches=("
                                      ["InRelease"], ["Release", "Release.gpg"]]),
              "compressions": rng.choice([["xz", "gz"], ["xz", "gz", ""], ["gz"], ["xz"], ["bz2", ""]]),
              "hashes": rng.choice([["SHA256"], ["MD5Sum", "SHA256"], ["MD5Sum", "SHA1", "SHA256", "SHA512"]]),
+             "upper_hashes": rng.random() < 0.25,
              "components": {}}
         for comp in comps:
             cc = {"arches": {}, "sources": None, "i18n": rng.random() < 0.5, "contents": rng.random() < 0.3}
@@ -86,10 +97,14 @@ def gen_version(rng, codenames=("stable",), comps=("main", "contrib"), arches=("
 
 
 def pkg_filename(comp, arch, p):
+    if p.get("filename") is not None:   # a stanza with a hand-written Filename (hostile runs of C06)
+        return p["filename"]
     return f"pool/{comp}/{p['name'][0]}/{p['name']}/{p['name']}_{p['version']}_{arch}.deb"
 
 
 def src_dir(comp, s):
+    if s.get("directory") is not None:
+        return s["directory"]
     return f"pool/{comp}/{s['name'][0]}/{s['name']}"
 
 
@@ -115,13 +130,16 @@ def render_sources(comp, srcs):
 
 
 def compress(data: bytes, kind: str) -> bytes:
-    if kind == "xz":
-        return lzma.compress(data)
-    if kind == "gz":
-        return gzip.compress(data, mtime=0)
-    if kind == "bz2":
-        return bz2.compress(data)
-    return data
+    # a quarter of the archives (decided by the content, so that a version always yields the same bytes) are
+    # concatenations of two complete streams - what `cat a.gz b.gz`, pigz -i or pbzip2 produce: legal, and read
+    # as one file by every reader of the format
+    fn = {"xz": lzma.compress, "gz": lambda d: gzip.compress(d, mtime=0), "bz2": bz2.compress}.get(kind)
+    if fn is None:
+        return data
+    if len(data) > 40 and hashlib.md5(data).digest()[0] % 4 == 0:
+        cut = len(data) // 2
+        return fn(data[:cut]) + fn(data[cut:])
+    return fn(data)
 
 
 HASHF = {"MD5Sum": hashlib.md5, "SHA1": hashlib.sha1, "SHA256": hashlib.sha256, "SHA512": hashlib.sha512}
@@ -163,16 +181,18 @@ def render_upstream(v):
                     if k:
                         entries.append((f"{comp}/i18n/Translation-en{EXT[k]}", compress(data, k)))
             if cc["contents"]:
-                for a in [a for a in cc["arches"] if a != "all"]:
+                for a in [a for a in cc["arches"] if a != "all" and a in cc.get("contents_arches", list(cc["arches"]))]:
                     body = f"usr/bin/x {comp}\n" if cc.get("contents_identical") else f"usr/bin/x {comp}/{a}\n"
                     entries.append((f"{comp}/Contents-{a}.gz", compress(body.encode(), "gz")))
-        lines = [f"Origin: sim", f"Suite: {cn}", f"Codename: {cn}", f"Version: {v['serial']}"]
+        lines = [f"Origin: sim", f"Suite: {cn}", f"Codename: {cn}", f"Version: {v['serial']}",
+                 "Date: " + time.strftime("%a, %d %b %Y %H:%M:%S UTC", time.gmtime(date))]
         if c["byhash"]:
             lines.append("Acquire-By-Hash: yes")
+        hx = (lambda d: d.upper()) if c.get("upper_hashes") else (lambda d: d)   # archives spell hex digests in either case
         for h in c["hashes"]:
             lines.append(f"{h}:")
             for name, data in entries:
-                lines.append(f" {HASHF[h](data).hexdigest()} {len(data)} {name}")
+                lines.append(f" {hx(HASHF[h](data).hexdigest())} {len(data)} {name}")
         body = "\n".join(lines) + "\n"
         base = f"dists/{cn}"
         if "Release" in c["flavours"]:
@@ -189,7 +209,7 @@ def render_upstream(v):
             if c["byhash"]:
                 d = os.path.dirname(f"{base}/{name}")
                 for h in c["hashes"]:
-                    files[f"{d}/by-hash/{h}/{HASHF[h](data).hexdigest()}"] = (data, date)
+                    files[f"{d}/by-hash/{h}/{hx(HASHF[h](data).hexdigest())}"] = (data, date)
     return files, meta
 
 
@@ -314,7 +334,7 @@ def run_tool(scn: Scenario, base: Path, faults=None, on_event=None, trace=False,
 
     async def mirror(self):
         r = await orig_mirror(self)
-        results[str(self._repository.url)] = r
+        results[str(self.get_repository().url)] = r
         return r
     am.RepositoryMirror.mirror = mirror
     res = RunResult()
@@ -470,7 +490,23 @@ def fsck(scn: Scenario, base: Path):
             if rel is None:
                 problems.append(f"{r['url']} {cn}: no published release file")
                 continue
-            _, entries = parse_release_text(rel)
+            abh, entries = parse_release_text(rel)
+            # C16: when by-hash applies, an index that is published under its canonical name is also published under
+            # by-hash/<Algorithm>/<hash> for every hash the Release lists for it.  Judged only where every file in the
+            # mirror is one this run kept on purpose (cleaning enabled, wipe guard off)
+            opt = r["config"].get("byhash")
+            applies = (opt == "force") or (abh and opt != "no")
+            if applies and r["config"].get("clean", True) and scn.autoclean and not getattr(scn, "wipe_default", False):
+                for name, e in entries.items():
+                    if e["size"] <= 0 or name in ("Release", "InRelease", "Release.gpg") or not selected(comps, name):
+                        continue
+                    f = d / name
+                    if f.is_file() and f.stat().st_size == e["size"]:
+                        for ht, hv in e["hashes"].items():
+                            a = f.parent / "by-hash" / ht / hv
+                            if not a.is_file() or a.stat().st_size != e["size"]:
+                                problems.append(f"{r['url']} {cn}: {name} is published but its by-hash name "
+                                                f"by-hash/{ht}/{hv} (listed in the Release, by-hash applies) is missing")
             groups = {}
             for name, e in entries.items():
                 if e["size"] <= 0 or name in ("Release", "InRelease", "Release.gpg"):
